@@ -47,9 +47,9 @@ fn strat<B: Backend>(tier: Tier, kind: u8) -> impl Strategy<Value = Case> {
         forced,
     )
         .prop_map(move |(secret, wrapped, wrapping, password, params, nonce, salt_seed, forced_iv)| {
-            // the model computes Argon2id through libsodium: parallelism 1 only
+            // parallelism > 1 only where the back end supports it (the sibling check then skips libsodium)
             let params = match params {
-                PwParams::Argon2id { mem_bytes, time, .. } => PwParams::Argon2id { mem_bytes: mem_bytes.max(8192), time, para: 1 },
+                PwParams::Argon2id { mem_bytes, time, para } => PwParams::Argon2id { mem_bytes: mem_bytes.max(8192 * para as u64), time, para },
                 p => p,
             };
             Case { kind, secret: secret && kind != 2, wrapped, wrapping, password, params, nonce, salt_seed, forced_iv }
@@ -94,7 +94,11 @@ fn all_backends_unwrap<B: Backend>(acc: &mut Acc, c: &Case, text: &str, want: &[
     let sk_raw = pke_secret_bytes(ver, &c.wrapping);
     let mut err: Option<Fail> = None;
     crate::for_backends!(T => {
-        if T::VER == ver && err.is_none() {
+        let para_ok = T::PBKW_PARALLEL || c.kind != 1 || !matches!(c.params, PwParams::Argon2id { para, .. } if para > 1);
+        if T::VER == ver && err.is_none() && !para_ok {
+            acc.class("unwrap:sibling-skipped(parallelism unsupported there)");
+        }
+        if T::VER == ver && err.is_none() && para_ok {
             let r = if c.kind == 2 { unseal_on::<T>(text, &sk_raw) } else { unwrap_any::<T>(c.kind, c.secret, text, &wk_raw, &pw) };
             let who = if T::NAME == B::NAME { "self".to_string() } else { format!("sibling/{}", T::NAME) };
             match r {
@@ -330,8 +334,8 @@ pub fn def() -> PropertyDef {
     PropertyDef {
         id: "C07",
         level: "exploration",
-        rule: "proptest cases (kind {PIE, PBKW, PKE} x wrapped key {local, secret} x wrapping key / password / recipient x PBKW parameters within budget (p = 1) x nonce kind {seeded, zero, ones, counter block at the 64/128-bit wrap} x optional forced derived counter block (paseto_verif hook; v1/v3 PIE and PKE)); relations: (1) the library's blob equals the reference model's blob recomputed from the nonce/salt/ephemeral key it embeds (PKE: recomputed with the recipient secret; with scripted RNG the ephemeral key itself is compared), (2) model-built blobs with model-chosen nonces (incl. 0xff..ff counter blocks in k1/k3 password wraps) unwrap to the same key on every back end of the version, (3) the sibling unwraps this back end's output. Non-trivial iff wrap-around nonce kind, secret key payload, PBKW (non-default parameters) or forced IV",
-        assumptions: vec!["reference model validated on the upstream vectors", "Argon2id parallelism fixed to 1 for model-checked cases (libsodium); memory multiples of 1 KiB"],
+        rule: "proptest cases (kind {PIE, PBKW, PKE} x wrapped key {local, secret} x wrapping key / password / recipient x PBKW parameters within budget (p = 1..4 where supported) x nonce kind {seeded, zero, ones, counter block at the 64/128-bit wrap} x optional forced derived counter block (paseto_verif hook; v1/v3 PIE and PKE)); relations: (1) the library's blob equals the reference model's blob recomputed from the nonce/salt/ephemeral key it embeds (PKE: recomputed with the recipient secret; with scripted RNG the ephemeral key itself is compared), (2) model-built blobs with model-chosen nonces (incl. 0xff..ff counter blocks in k1/k3 password wraps) unwrap to the same key on every back end of the version, (3) the sibling unwraps this back end's output. Non-trivial iff wrap-around nonce kind, secret key payload, PBKW (non-default parameters) or forced IV",
+        assumptions: vec!["reference model validated on the upstream vectors", "Argon2id through libsodium for parallelism 1 and through the argon2 crate for parallelism 2..4 (RustCrypto back ends only); memory multiples of 1 KiB"],
         subs,
     }
 }
